@@ -1,5 +1,205 @@
+// C36, end to end: `plz query alltargets <labels> --include ... --exclude ...` with the real binary ($VERIF_PLZ) over a
+// generated repository that has nested packages, a namesake target in the root package, test targets without labels and a
+// subrepo whose package names and target names coincide with the host's.  plz is started from the root and from
+// sub-directories, so relative labels and relative exclude expressions are resolved by the real getRepoRoot /
+// InitialPackagePath code.  The printed selection is compared (as a sorted set) with the documented rule.
 package main
 
-import "verifharness/lib"
+import (
+	"fmt"
+	"os"
+	"os/exec"
+	"path/filepath"
+	"sort"
+	"strings"
+	"time"
 
-func endToEnd(c *lib.Ctx) {}
+	"verifharness/lib"
+)
+
+// the repository: what is written to disk and, as []P, what the oracle is told
+func e2eGraph() []P {
+	pkgTargets := []T{
+		{Name: "foo", Labels: []string{"x"}},
+		{Name: "bar", Labels: []string{"x", "slow"}},
+		{Name: "foo_test", Labels: []string{}, Test: true},
+	}
+	return []P{
+		{Pkg: "", Targets: []T{{Name: "foo", Labels: []string{"x"}}, {Name: "root_only", Labels: []string{"y"}}}},
+		{Pkg: "pkg", Targets: pkgTargets},
+		{Pkg: "pkg/q", Targets: []T{{Name: "foo", Labels: []string{"x"}}, {Name: "baz", Labels: []string{"x", "slow"}}}},
+		{Pkg: "pkgs", Targets: []T{{Name: "foo", Labels: []string{"xy"}}}},
+		{Pkg: "other", Targets: []T{{Name: "foo", Labels: []string{"y"}}, {Name: "o_test", Labels: []string{"tests"}, Test: true}}},
+		// the subrepo lives in third_party/sub: its packages are also host packages under that directory
+		{Pkg: "third_party/sub/pkg", Targets: []T{{Name: "foo", Labels: []string{"x"}}, {Name: "only_sub", Labels: []string{"x"}}}},
+		{Sub: "sub", Pkg: "pkg", Targets: []T{{Name: "foo", Labels: []string{"x"}}, {Name: "only_sub", Labels: []string{"x"}}}},
+	}
+}
+
+func pyStrs(xs []string) string {
+	q := make([]string, len(xs))
+	for i, x := range xs {
+		q[i] = fmt.Sprintf("%q", x)
+	}
+	return "[" + strings.Join(q, ", ") + "]"
+}
+
+func writeRepo(dir string, g []P) error {
+	cfg := "[build]\npath = /usr/local/bin:/usr/bin:/bin\n[cache]\ndir = " + filepath.Join(dir, ".plz-cache") + "\n[display]\nupdatetitle = false\n"
+	if err := os.WriteFile(filepath.Join(dir, ".plzconfig"), []byte(cfg), 0o644); err != nil {
+		return err
+	}
+	for _, p := range g {
+		if p.Sub != "" {
+			continue // written as the host package third_party/sub/<pkg>
+		}
+		var b strings.Builder
+		if p.Pkg == "" {
+			b.WriteString("subrepo(name = \"sub\", path = \"third_party/sub\")\n")
+		}
+		for _, t := range p.Targets {
+			if t.Test {
+				fmt.Fprintf(&b, "gentest(name = %q, test_cmd = \"true\", no_test_output = True, labels = %s)\n", t.Name, pyStrs(t.Labels))
+			} else {
+				fmt.Fprintf(&b, "genrule(name = %q, outs = [%q], cmd = \"echo > $OUT\", labels = %s)\n", t.Name, t.Name+".txt", pyStrs(t.Labels))
+			}
+		}
+		d := filepath.Join(dir, p.Pkg)
+		if err := os.MkdirAll(d, 0o755); err != nil {
+			return err
+		}
+		if err := os.WriteFile(filepath.Join(d, "BUILD"), []byte(b.String()), 0o644); err != nil {
+			return err
+		}
+	}
+	return os.WriteFile(filepath.Join(dir, "third_party/sub/.plzconfig"), []byte(""), 0o644)
+}
+
+func parsePrinted(line string) (L, bool) {
+	sub := ""
+	if strings.HasPrefix(line, "///") {
+		rest := line[3:]
+		i := strings.Index(rest, "//")
+		if i < 0 {
+			return L{}, false
+		}
+		sub, line = rest[:i], rest[i:]
+	}
+	if !strings.HasPrefix(line, "//") {
+		return L{}, false
+	}
+	i := strings.IndexByte(line, ':')
+	if i < 0 {
+		return L{}, false
+	}
+	return L{sub, line[2:i], line[i+1:]}, true
+}
+
+type e2eRun struct {
+	cwd       string   // the package plz is started in
+	labels    []string // as typed
+	requested []L      // what the typed labels mean (relative ones resolved by hand; `...` given as such)
+	include   []string
+	exclude   []string
+}
+
+func endToEnd(c *lib.Ctx) {
+	plz := os.Getenv("VERIF_PLZ")
+	if plz == "" {
+		c.Note("end-to-end part skipped: VERIF_PLZ is not set")
+		return
+	}
+	base, err := os.MkdirTemp("", "c36-e2e-")
+	if err != nil {
+		panic(err)
+	}
+	defer os.RemoveAll(base)
+	g := e2eGraph()
+	if err := writeRepo(base, g); err != nil {
+		panic(err)
+	}
+	all := func(sub, pkg string) L { return L{sub, pkg, "all"} }
+	runs := []e2eRun{
+		// the seeded mutation m3, exactly: started in pkg, :foo is //pkg:foo
+		{"pkg", []string{":all"}, []L{all("", "pkg")}, nil, []string{":foo"}},
+		// ... and from the root :foo is //:foo, which is not in pkg
+		{"", []string{"//pkg:all"}, []L{all("", "pkg")}, nil, []string{":foo"}},
+		{"pkg", []string{"//..."}, []L{{"", "", "..."}}, nil, []string{":all"}},
+		{"pkg", []string{"//..."}, []L{{"", "", "..."}}, []string{"x"}, []string{":..."}},
+		{"pkg/q", []string{"//pkg/..."}, []L{{"", "pkg", "..."}}, nil, []string{":foo", "slow"}},
+		{"other", []string{"//pkg:all", ":all"}, []L{all("", "pkg"), all("", "other")}, nil, []string{":foo", "//pkg:bar"}},
+		{"", []string{"//..."}, []L{{"", "", "..."}}, []string{"x,s*", "y"}, []string{"//pkg/q/...", "//other"}},
+		{"", []string{"//pkg/...", "//pkgs:all"}, []L{{"", "pkg", "..."}, all("", "pkgs")}, []string{"x*"}, []string{"//pkg"}},
+		// the implicit test label under a wildcard (repaired defect b32293a), through the whole binary
+		{"", []string{"//pkg:all", "//other:all"}, []L{all("", "pkg"), all("", "other")}, []string{"te*"}, []string{"tests"}},
+		// subrepo, exclude expression of the same repository: exact
+		{"", []string{"///sub//pkg:all"}, []L{all("sub", "pkg")}, nil, []string{"///sub//pkg:foo"}},
+		{"pkg", []string{"@sub//pkg:all", ":all"}, []L{all("sub", "pkg"), all("", "pkg")}, []string{"x"}, []string{"@sub//pkg:only_sub", ":bar"}},
+		// exclude expression of another repository (the open finding exclude-expression-ignores-subrepo)
+		{"", []string{"//pkg:all"}, []L{all("", "pkg")}, nil, []string{"///sub//pkg:foo"}},
+		{"", []string{"///sub//pkg:all"}, []L{all("sub", "pkg")}, nil, []string{"//pkg:foo"}},
+	}
+	if !c.Thor {
+		// quick tier: each invocation costs 0.3-1 s (more on a loaded machine)
+		runs = append(runs[:2:2], runs[3], runs[4], runs[6], runs[8], runs[9], runs[11])
+	}
+	done := 0
+	for _, r := range runs {
+		args := append([]string{"query", "alltargets"}, r.labels...)
+		for _, i := range r.include {
+			args = append(args, "--include", i)
+		}
+		for _, e := range r.exclude {
+			args = append(args, "--exclude", e)
+		}
+		args = append(args, "-p", "-v", "0")
+		cmd := exec.Command(plz, args...)
+		cmd.Dir = filepath.Join(base, r.cwd)
+		cmd.Env = []string{"PATH=/usr/local/bin:/usr/bin:/bin", "HOME=" + base, "USER=verif"}
+		var stdout, stderr strings.Builder
+		cmd.Stdout, cmd.Stderr = &stdout, &stderr
+		if err := cmd.Start(); err != nil {
+			panic(err)
+		}
+		timer := time.AfterFunc(180*time.Second, func() { cmd.Process.Kill() })
+		err := cmd.Wait()
+		timer.Stop()
+		in := input{Kind: "e2e", Cur: r.cwd, Graph: g, Include: append([]string{}, r.include...), Exclude: r.exclude, Labels: r.requested}
+		js := map[string]any{"kind": "e2e", "started_in_package": r.cwd, "args": args, "stdout": stdout.String()}
+		if err != nil {
+			c.Fail("plz-query-alltargets-failed", fmt.Sprintf("(cwd=%s) plz %s: %v: %s", r.cwd, strings.Join(args, " "), err, lastLines(stderr.String(), 3)), js)
+			continue
+		}
+		got := []L{}
+		bad := false
+		for _, line := range strings.Split(strings.TrimSpace(stdout.String()), "\n") {
+			if line = strings.TrimSpace(line); line == "" {
+				continue
+			}
+			l, ok := parsePrinted(line)
+			if !ok {
+				bad = true
+				c.Fail("plz-query-alltargets-failed", fmt.Sprintf("(cwd=%s) plz %s: unexpected output line %q", r.cwd, strings.Join(args, " "), line), js)
+				break
+			}
+			got = append(got, l)
+		}
+		if bad {
+			continue
+		}
+		sort.Slice(got, func(i, j int) bool { return lessL(got[i], got[j]) })
+		checkExpansion(c, in, got)
+		in.Out = got
+		c.Eval(in, fmt.Sprint("e2e", r.cwd, args), len(got) > 0)
+		done++
+	}
+	c.Note("end to end: %d `plz query alltargets` invocations over a generated repository (7 packages, 1 subrepo), from the root and from %s", done, "pkg, pkg/q, other")
+}
+
+func lastLines(x string, n int) string {
+	lines := strings.Split(strings.TrimSpace(x), "\n")
+	if len(lines) > n {
+		lines = lines[len(lines)-n:]
+	}
+	return strings.Join(lines, " | ")
+}
